@@ -96,8 +96,15 @@ def anf_program(rng):
         elif env:
             # deliberately outside what one of the libraries accepts (boolean arithmetic, boolean output below)
             a, b = rng.choice(env), rng.choice(env)
-            stmts.append({"k": "bin", "x": x, "op": rng.choice(ARITH + CMP), "a": a[0], "b": b[0]})
-            env.append((x, (max3(a[1][0], b[1][0]), "Int")))
+            op = rng.choice(ARITH + CMP)
+            if op in ("OEq", "ONe") and a[1][1] == "Bool" and b[1][1] == "Bool":
+                # == / != on two abstract booleans is Python object identity (a plain bool, no error): outside what
+                # Model/SigModel.v models (it answers None), and outside C15's "modelled operations"
+                op = "OLt"
+            stmts.append({"k": "bin", "x": x, "op": op, "a": a[0], "b": b[0]})
+            if a[1][1] == "Int" and b[1][1] == "Int":
+                env.append((x, (max3(a[1][0], b[1][0]), "Bool" if op in CMP else "Int")))
+            # otherwise at least one library rejects the statement: the variable is not used again
     cands = [e for e in env if e[1][1] == "Int" and e[1][0] != "Const"] or env
     if rng.random() < 0.08:
         cands = env
